@@ -304,8 +304,9 @@ func (nfs *Nfs) NFSPROC3_WRITE(args nfstypes.WRITE3args) nfstypes.WRITE3res {
 	}
 	// the reply attributes must be read while the inode is still locked
 	fattr := ip.MkFattr()
-	// if not supporting unstable writes, upgrade stability
-	if !nfs.Unstable {
+	// if not supporting unstable writes, upgrade stability; a stability level
+	// that is not one of the three defined ones is served as the strongest
+	if !nfs.Unstable || (args.Stable != nfstypes.UNSTABLE && args.Stable != nfstypes.DATA_SYNC) {
 		args.Stable = nfstypes.FILE_SYNC
 	}
 	if args.Stable == nfstypes.FILE_SYNC {
